@@ -87,8 +87,25 @@ def run(ctx):
         smooth = rng.choice([0, 1, 5, 10, 10, 20, 33, 50, 100])
         limit = 10000.0
         prm = dict(kind='npoint', T=Ts, P_points=Pn, smooth=smooth, n=n, pressure=P, mode=mode)
-        tp = NPoint(T_surface=Ts[0], T_top=Ts[-1], P_surface=-1, P_top=-1, temperature_points=list(Ts[1:-1]),
-                    pressure_points=list(Pn), smoothing_window=smooth, limit_slope=limit)
+        if rng.random() < 0.4:
+            # the nodes arrive through the fitting parameters (as in a retrieval), in a random order, on a profile
+            # constructed with other values
+            tp = NPoint(T_surface=rng.uniform(300, 2500), T_top=rng.uniform(300, 2500), P_surface=-1, P_top=-1,
+                        temperature_points=[rng.uniform(300, 2500) for _ in Ts[1:-1]],
+                        pressure_points=[10 ** rng.uniform(lo_p, hi_p) for _ in Pn], smoothing_window=smooth,
+                        limit_slope=limit)
+            fp = tp.fitting_parameters()
+            writes = [('T_surface', Ts[0]), ('T_top', Ts[-1])] + \
+                [('T_point%d' % (j + 1), v) for j, v in enumerate(Ts[1:-1])] + \
+                [('P_point%d' % (j + 1), v) for j, v in enumerate(Pn)]
+            rng.shuffle(writes)
+            for nm_, v_ in writes:
+                fp[nm_][3](v_)
+            ctx.count('npoint:nodes-set-through-fitting-parameters')
+            prm = dict(prm, nodes_set_in_order=[w_[0] for w_ in writes])
+        else:
+            tp = NPoint(T_surface=Ts[0], T_top=Ts[-1], P_surface=-1, P_top=-1, temperature_points=list(Ts[1:-1]),
+                        pressure_points=list(Pn), smoothing_window=smooth, limit_slope=limit)
         tp.initialize_profile(planet, n, P)
         try:
             with np.errstate(all='ignore'):
